@@ -202,14 +202,14 @@ Inductive stmt :=
 
 Definition prog := list stmt.
 
-Inductive value := VLit (l : lit) | VInst (c : N) | VTuple (vs : list value) | VDict.
-Inductive aval := ALit (l : lit) | AInst (c : N) | ATuple (ess : list (list aval)) | ADict.
+Inductive value := VLit (l : lit) | VInst (c : N) | VTuple (vs : list value) | VDict (vs : list value).   (* VDict: the values of **kwargs, in order *)
+Inductive aval := ALit (l : lit) | AInst (c : N) | ATuple (ess : list (list aval)) | ADict (ess : list (list aval)).
 Inductive tag := TLit (l : lit) | TInst (c : N) | TTuple | TDict.
 
 Definition tag_of (v : value) : tag :=
-  match v with VLit l => TLit l | VInst c => TInst c | VTuple _ => TTuple | VDict => TDict end.
+  match v with VLit l => TLit l | VInst c => TInst c | VTuple _ => TTuple | VDict _ => TDict end.
 Definition atag_of (a : aval) : tag :=
-  match a with ALit l => TLit l | AInst c => TInst c | ATuple _ => TTuple | ADict => TDict end.
+  match a with ALit l => TLit l | AInst c => TInst c | ATuple _ => TTuple | ADict _ => TDict end.
 
 (* a function after its `def` ran: D = what a default is (a value resp. a set of abstract values) *)
 Record fdef (D : Type) := { fd_name : N; fd_params : list (N * pkind * option D); fd_body : expr;
@@ -277,7 +277,7 @@ Definition cparam (ps : list (N * pkind * option value)) (pos : list value) (kws
   | BArg r => match resolve_ref pos kws r with Some v => Some (x, v) | None => None end
   | BDefault => match default_of x ps with Some v => Some (x, v) | None => None end
   | BStar l => match omap (resolve_ref pos kws) l with Some vs => Some (x, VTuple vs) | None => None end
-  | BKw _ => Some (x, VDict)
+  | BKw l => match omap (fun ka : N * aref => resolve_ref pos kws (snd ka)) l with Some vs => Some (x, VDict vs) | None => None end
   | BUnknown => None
   end.
 
@@ -367,7 +367,11 @@ Fixpoint ainf_expr (e : expr) : list aval :=
   | ENew c => if memN c classes then [AInst c] else []
   | EName x => match lookup x aenv with Some s => s | None => [] end     (* last assignment before the position *)
   | ETuple es => [ATuple (map ainf_expr es)]                             (* one value, entries inferred per index *)
-  | EIndex e i => flat_map (fun a => match a with ATuple ess => jedi_index ess i | _ => [] end) (ainf_expr e)
+  | EIndex e i => flat_map (fun a => match a with
+                                    | ATuple ess => jedi_index ess i
+                                    | ADict ess => concat ess      (* FakeDict[int]: KeyError -> all values *)
+                                    | _ => []
+                                    end) (ainf_expr e)
   | ETern _ e1 e2 => ainf_expr e1 ++ ainf_expr e2                        (* both arms *)
   | ECall f args kws =>
       acallf f (map ainf_expr args) (map (fun ke => let '(k, e) := ke in (k, ainf_expr e)) kws)
@@ -383,7 +387,7 @@ Definition aparam (ps : list (N * pkind * option (list aval))) (pos : list (list
   | BArg r => (x, or_nil (resolve_ref pos kws r))
   | BDefault => (x, or_nil (default_of x ps))
   | BStar l => (x, [ATuple (map (fun r => or_nil (resolve_ref pos kws r)) l)])
-  | BKw _ => (x, [ADict])
+  | BKw l => (x, [ADict (map (fun ka : N * aref => or_nil (resolve_ref pos kws (snd ka))) l)])
   | BUnknown => (x, [])
   end.
 
@@ -430,7 +434,7 @@ Fixpoint abs (v : value) : aval :=
   | VLit l => ALit l
   | VInst c => AInst c
   | VTuple vs => ATuple (map (fun v => [abs v]) vs)
-  | VDict => ADict
+  | VDict vs => ADict (map (fun v => [abs v]) vs)
   end.
 
 (* syntactic: no conditional expression *)
